@@ -240,17 +240,17 @@ func wrapBranch(name string, message profile.Message, branch BranchRegoResult, m
 
 		if len(vars) > 0 {
 			acc = append(acc, fmt.Sprintf("  message_vars := [%s]", strings.Join(vars, ",")))
-			acc = append(acc, fmt.Sprintf("  message := sprintf(\"%s\", message_vars)", sanitizedMessage(message.Expression)))
+			acc = append(acc, fmt.Sprintf("  message := sprintf(%s, message_vars)", sanitizedMessage(message.Expression)))
 		} else {
-			acc = append(acc, fmt.Sprintf("  message := \"%s\"", sanitizedMessage(message.Expression)))
+			acc = append(acc, fmt.Sprintf("  message := %s", sanitizedMessage(message.Expression)))
 		}
 	}
 
-	acc = append(acc, fmt.Sprintf("  %s := error(\"%s\",%s, message ,[%s])", matchesVariable, name, mappingVariable, strings.Join(resultBindings, ",")))
+	acc = append(acc, fmt.Sprintf("  %s := error(%s,%s, message ,[%s])", matchesVariable, misc.RegoString(name), mappingVariable, strings.Join(resultBindings, ",")))
 	return acc
 }
 
+// sanitizedMessage returns the message as a Rego string literal, with double quotes shown as single quotes
 func sanitizedMessage(s string) string {
-	result := strings.ReplaceAll(s, "\n", "\\n")
-	return strings.ReplaceAll(result, "\"", "'")
+	return misc.RegoString(strings.ReplaceAll(s, "\"", "'"))
 }
